@@ -1,6 +1,8 @@
 (* C03 driver.
-     rev <message|-> <author|-> <date|-> <committer|-> <cdate|-> <directory> <parents p,p|.> <extra k:v|k:v or .> <metaextra - or k:v|.. or .>
-         -> ok <manifest hex> <sha1 hex> <extra after post-init> <wf_extra 0|1> | err ValueError
+     rev <message|-> <author|-> <date|-> <committer|-> <cdate|-> <directory> <parents p,p|.> <extra k:v|k:v or .> <metaextra - or k:v|.. or .> [<raw manifest|->]
+         -> ok <manifest hex> <sha1 hex> <extra after post-init> <wf_extra 0|1> <manifest after post-init>
+               <metadata extra headers after post-init: - or k:v|.. or .> <id = rev_compute_hash sha1 r when a raw manifest is given, else '=' (C03_id_is_commit_hash: the sha1 above)>
+          | err ValueError
      pcommit <manifest hex> -> ok <tree> <parents> <author|-> <committer|-> <extra> <message|-> | none *)
 let parse_date (s : string) : tstz option =
   if s = "-" then None else
@@ -16,20 +18,24 @@ let parse_headers s =
 let show_headers hs =
   if hs = [] then "." else String.concat "|" (List.map (fun (k, v) -> hex_of_bytes k ^ ":" ^ hex_of_bytes v) hs)
 let show_list l = if l = [] then "." else String.concat "," (List.map hex_of_bytes l)
+let rev msg au dt co cdt dir ps ex mex raw =
+  let r = { v_message = opt_bytes_of_hex msg; v_author = parse_person au; v_committer = parse_person co;
+            v_date = parse_date dt; v_committer_date = parse_date cdt; v_type = RtGit;
+            v_directory = bytes_of_hex dir; v_synthetic = false;
+            v_meta_extra = (if mex = "-" then None else Some (parse_headers mex)); v_meta_other = [];
+            v_parents = (if ps = "." then [] else List.map bytes_of_hex (String.split_on_char ',' ps));
+            v_extra_headers = parse_headers ex; v_raw_manifest = opt_bytes_of_hex raw } in
+  if not (revision_valid r) then "err ValueError" else
+  let m = rev_manifest r in
+  let r' = post_init r in
+  String.concat " " ["ok"; hex_of_bytes m; hex_of_bytes (sha1 m); show_headers r'.v_extra_headers;
+                     (if wf_extra (effective_extra r) then "1" else "0");
+                     hex_of_bytes (rev_manifest r');
+                     (match r'.v_meta_extra with None -> "-" | Some l -> show_headers l);
+                     (if raw = "-" then "=" else hex_of_bytes (rev_compute_hash sha1 r))]
 let () = serve (function
-  | ["rev"; msg; au; dt; co; cdt; dir; ps; ex; mex] ->
-      let r = { v_message = opt_bytes_of_hex msg; v_author = parse_person au; v_committer = parse_person co;
-                v_date = parse_date dt; v_committer_date = parse_date cdt; v_type = RtGit;
-                v_directory = bytes_of_hex dir; v_synthetic = false;
-                v_meta_extra = (if mex = "-" then None else Some (parse_headers mex)); v_meta_other = [];
-                v_parents = (if ps = "." then [] else List.map bytes_of_hex (String.split_on_char ',' ps));
-                v_extra_headers = parse_headers ex; v_raw_manifest = None } in
-      if not (revision_valid r) then "err ValueError" else
-      let m = rev_manifest r in
-      let r' = post_init r in
-      String.concat " " ["ok"; hex_of_bytes m; hex_of_bytes (sha1 m); show_headers r'.v_extra_headers;
-                         (if wf_extra (effective_extra r) then "1" else "0");
-                         hex_of_bytes (rev_manifest r')]
+  | ["rev"; msg; au; dt; co; cdt; dir; ps; ex; mex] -> rev msg au dt co cdt dir ps ex mex "-"
+  | ["rev"; msg; au; dt; co; cdt; dir; ps; ex; mex; raw] -> rev msg au dt co cdt dir ps ex mex raw
   | ["pcommit"; m] ->
       (match parse_commit (bytes_of_hex m) with
        | Some f -> String.concat " " ["ok"; hex_of_bytes f.c_tree; show_list f.c_parents; hex_of_opt_bytes f.c_author;
